@@ -1,14 +1,17 @@
 package main
 
 import (
+	"encoding/base64"
 	"fmt"
 	"math/rand"
 	"os"
 	"path/filepath"
 	"regexp"
 	"sort"
+	"strconv"
 	"strings"
 	"time"
+	"unicode/utf8"
 )
 
 func init() {
@@ -68,9 +71,13 @@ func c09Grammar(parses, hasSyntax bool, conflict string) string {
 	return c09ValidLex + "<< import \"fmt\" >>\nS : S a << fmt.Sprint($0, $1), nil >> | b | \"lit\" b ;\n"
 }
 
+// c09Lits: the hostile spellings shared with C10 plus raw bytes that the Go compiler refuses in a
+// source file when they are copied into it unescaped
+var c09Lits = append(append([]string{}, hostileLits...), "a\xffb", "\xff", "a\xef\xbb\xbfb", "a\x00b", "\x7f", "\x1b[0m", "\u2028", "\xc3", "\xed\xa0\x80")
+
 func checkC09(c *Ctx) {
 	c.Level = "model_checking"
-	c.Set("rule", "Pipeline.tla models main() (stages, exit paths, packages written); TLC checks that every behaviour terminates and that status zero implies exactly the required packages, for all 64 flag sets x all input feature vectors, and emits the outcome table; every row (quick: every row of a seeded half of the flag sets) is instantiated with a concrete grammar and run on the real gocc: zero/non-zero status and the set of packages written must equal the model's, and whenever the status is zero the written packages must compile (go build); hostile spellings (quotes, backslashes, back-quotes, %, {{, */, non-ASCII, long names in string literals, character literals and action expressions) must compile whenever gocc exits 0; seeded byte-level mutations, bracket towers and all nullable repetition shapes up to depth 3 must terminate. distinct_nontrivial counts distinct (file, flags) runs")
+	c.Set("rule", "Pipeline.tla models main() (stages, exit paths, packages written); TLC checks that every behaviour terminates and that status zero implies exactly the required packages, for all 64 flag sets x all input feature vectors, and emits the outcome table; every row (quick: every row of a seeded half of the flag sets) is instantiated with a concrete grammar and run on the real gocc: zero/non-zero status and the set of packages written must equal the model's, and whenever the status is zero the written packages must compile (go build); hostile spellings (quotes, backslashes, back-quotes, %, {{, */, non-ASCII, raw invalid UTF-8, BOM, NUL and control bytes, long names in string literals, character literals and action expressions) must compile whenever gocc exits 0; seeded byte-level mutations, bracket towers and all nullable repetition shapes up to depth 3 must terminate. distinct_nontrivial counts distinct (file, flags) runs")
 	c.Assume("gocc is run with -o below the working directory of a scratch module whose go.mod names the module (import paths derive from it)")
 	tab := c.pipelineTable()
 	rng := rand.New(rand.NewSource(c.Seed))
@@ -115,7 +122,7 @@ func checkC09(c *Ctx) {
 		}
 		if bad != "" && c.firstFor(cs.Text+fmt.Sprint(cs.Flags)) {
 			c.Violation(Replay{Kind: "gocc-complete", What: fmt.Sprintf("gocc %v on a grammar with %s: %s\n%s", flagArgs(cs.Flags), cs.Feature, bad, indent(cs.Text)),
-				Data: map[string]any{"text": cs.Text, "flags": flagArgs(cs.Flags), "zero": cs.Row.Status == 0, "written": want}})
+				Data: textData(cs.Text, map[string]any{"flags": flagArgs(cs.Flags), "zero": cs.Row.Status == 0, "written": want})})
 		}
 		if runs[i].Code == 0 {
 			toBuild = append(toBuild, cs)
@@ -178,7 +185,7 @@ func checkC09(c *Ctx) {
 			used := map[string]bool{}
 			for k := range g.Terms {
 				if g.IsLit[k] {
-					h := hostileLits[rng.Intn(len(hostileLits))]
+					h := c09Lits[rng.Intn(len(c09Lits))]
 					if rng.Intn(6) == 0 {
 						h = strings.Repeat("long_", 300)
 					}
@@ -204,7 +211,7 @@ func checkC09(c *Ctx) {
 			lg := genLexGrammar(rng, lexGenOpts{MaxToks: 3, MaxIgn: 1, MaxDefs: 1, MaxLits: 0, Depth: 2})
 			lits := []string{}
 			for k := 0; k < 1+rng.Intn(3); k++ {
-				lits = append(lits, hostileLits[rng.Intn(len(hostileLits))])
+				lits = append(lits, c09Lits[rng.Intn(len(c09Lits))])
 			}
 			seen := map[string]bool{}
 			var alts []string
@@ -249,7 +256,7 @@ func checkC09(c *Ctx) {
 		c.Distinct(cs.Text)
 		if hruns[i].TimedOut {
 			if c.firstFor(cs.Text) {
-				c.Violation(Replay{Kind: "gocc-terminates", What: "gocc did not terminate within 60 s on\n" + indent(cs.Text), Data: map[string]any{"text": cs.Text, "flags": flagArgs(cs.Flags)}})
+				c.Violation(Replay{Kind: "gocc-terminates", What: "gocc did not terminate within 60 s on\n" + indent(cs.Text), Data: textData(cs.Text, map[string]any{"flags": flagArgs(cs.Flags)})})
 			}
 			continue
 		}
@@ -293,7 +300,7 @@ func (c *Ctx) buildAll(m *Module, cases []*c09Case) {
 			found = true
 			if c.firstFor(cs.Text + fmt.Sprint(cs.Flags)) {
 				c.Violation(Replay{Kind: "gocc-complete", What: fmt.Sprintf("gocc %v exits 0 but the generated packages do not compile:\n%s\n%s", flagArgs(cs.Flags), indent(bad[i]), indent(cs.Text)),
-					Data: map[string]any{"text": cs.Text, "flags": flagArgs(cs.Flags), "zero": true, "written": nil}})
+					Data: textData(cs.Text, map[string]any{"flags": flagArgs(cs.Flags), "zero": true, "written": nil})})
 			}
 		}
 	}
@@ -386,7 +393,7 @@ func (c *Ctx) terminationSweep(rng *rand.Rand) {
 				continue
 			}
 			c.Add("timeouts_confirmed", 1)
-			rp := Replay{Kind: "gocc-terminates", Data: map[string]any{"text": t, "flags": []string{"-a"}}}
+			rp := Replay{Kind: "gocc-terminates", Data: textData(t, map[string]any{"flags": []string{"-a"}})}
 			if bad, msg := replayGoccTerminates(c, &rp); bad && c.firstFor(t) {
 				rp.What = "gocc does not terminate (" + msg + ") on\n" + indent(fmt.Sprintf("%q", t))
 				c.Violation(rp)
@@ -413,7 +420,7 @@ func (c *Ctx) terminationSweep(rng *rand.Rand) {
 }
 
 func replayGoccComplete(c *Ctx, r *Replay) (bool, string) {
-	text, _ := r.Data["text"].(string)
+	text := dataText(r.Data)
 	var flags []string
 	if f, ok := r.Data["flags"].([]any); ok {
 		for _, x := range f {
@@ -458,7 +465,7 @@ func replayGoccComplete(c *Ctx, r *Replay) (bool, string) {
 }
 
 func replayGoccTerminates(c *Ctx, r *Replay) (bool, string) {
-	text, _ := r.Data["text"].(string)
+	text := dataText(r.Data)
 	var flags []string
 	switch f := r.Data["flags"].(type) {
 	case []any:
@@ -514,4 +521,27 @@ func (c *Ctx) outdirCase(name string) (bool, string) {
 		return false, "status zero and the output builds"
 	}
 	return false, "unknown configuration"
+}
+
+// textData stores a grammar file in replay data: as it is when it is valid UTF-8 (readable,
+// and the form of the replays recorded before), in base64 otherwise (JSON would replace the
+// invalid bytes).
+func textData(text string, d map[string]any) map[string]any {
+	if utf8.ValidString(text) {
+		d["text"] = text
+	} else {
+		d["text_b64"] = base64.StdEncoding.EncodeToString([]byte(text))
+		d["text_shown"] = strconv.QuoteToASCII(text)
+	}
+	return d
+}
+
+func dataText(d map[string]any) string {
+	if b, ok := d["text_b64"].(string); ok {
+		if raw, err := base64.StdEncoding.DecodeString(b); err == nil {
+			return string(raw)
+		}
+	}
+	t, _ := d["text"].(string)
+	return t
 }
